@@ -29,12 +29,16 @@ THEOREMS = [
     'Nb.C08.volume_slice_prefix',
     'Nb.C08.pair_prefix_header',
     'Nb.C08.pair_prefix_image',
+    'Nb.C08.pair_ext_prefix',
+    'Nb.C08.single_strict_prefix',
+    'Nb.C08.cifti_prefix',
     'Nb.C08.mgh_prefix',
     'Nb.C08.mmap_eq_read',
     'Nb.C08.trk_prefix',
     'Nb.C08.trk_prefix_orig_counterexample',
     'Nb.C08.trk_zero_count_header_cut',
-    'Nb.C08.tck_prefix_partial',
+    'Nb.C08.tck_prefix',
+    'Nb.C08.tck_header_scan_sound',
     'Nb.C08.tck_data_prefix',
     'Nb.C08.xml_prefix',
     'Nb.C08.codec_lift',
@@ -551,6 +555,8 @@ def mk_case(spec, member, mode, k, stream='prefix', slicer=None):
     if fmt in VOLS:
         L = vol_layout(spec)
         mem = 'single' if fmt not in PAIRS else ('hdr' if member == 'header' else 'img')
+        if fmt == 'cifti2':
+            mem = 'cifti'
         fixed = '_' if L['fixed'] is None else str(L['fixed'])
         pl = ','.join(map(str, L['pl'])) or '-'
         mm = int(mode == 1) if fmt != 'cifti2' else 1
